@@ -12,9 +12,11 @@ import time
 
 VERIF = os.path.dirname(os.path.dirname(os.path.abspath(__file__)))
 REPO = os.environ.get("VERIF_REPO", "/repo")
-CACHE = os.path.join(VERIF, ".cache")
-EVIDENCE_DIR = os.path.join(VERIF, "evidence")
-REPLAY_DIR = os.path.join(VERIF, "replays")
+# development-only overrides (seed testing against a scratch worktree while /repo is in use); the registered commands never set them
+CACHE = os.environ.get("VERIF_CACHE", os.path.join(VERIF, ".cache"))
+EVIDENCE_DIR = os.environ.get("VERIF_EVIDENCE", os.path.join(VERIF, "evidence"))
+REPLAY_DIR = os.environ.get("VERIF_REPLAYS", os.path.join(VERIF, "replays"))
+REPLAY_CRATES = os.environ.get("VERIF_REPLAY_CRATES", os.path.join(VERIF, "replay"))
 FINDINGS_FILE = os.path.join(VERIF, "known_findings.json")
 
 LEVEL = "model_checking"  # bounded model checking / SMT over the real code; see MANIFEST level_claimed
